@@ -108,6 +108,40 @@ def run(ctx, rep):
             rep.violation('M2', vkey('M2', r['fn'], r['name'], ''), fn.loc(fn.span) if fn else r['fn'],
                           'no rejecting branch for: %s' % r['name'])
 
+    # ---------------- M2f a volume that is not laid out as FAT32 has a non-zero 16-bit FAT size
+    IF = facts.fns.get(BPB + '::is_fat32')
+    if IF is None:
+        rep.machinery('ANCHOR-MISSING BiosParameterBlock::is_fat32')
+    else:
+        from decision import Walker
+        from model import place_key as _pk
+        key = None
+        for bi in IF.reachable():
+            for s_ in IF.blocks[bi]['stmts']:
+                if s_['k'] == 'assign':
+                    from model import places_read_by_rvalue
+                    for pl in places_read_by_rvalue(s_['rv']):
+                        if any('f' in e and e.get('n') == 'sectors_per_fat_16' for e in pl['p']):
+                            key = _pk(pl)
+        outs = None
+        if key is not None:
+            def _cls(w, blk, env, refs, phase):
+                if phase == 'exit':
+                    v = env.get((0, ()))
+                    return 'unknown' if v is None else ('fat32' if v else 'not-fat32')
+                return None
+            outs = Walker(IF, _cls, facts=facts).walk(0, {key: 0})
+        ok = outs == {'fat32'}
+        rep.oblige('M2f', IF.name, ok=ok, nontrivial=True,
+                   sample={'fn': IF.name, 'with sectors_per_fat_16 == 0 the outcomes are': sorted(outs or [])})
+        if key is None:
+            rep.machinery('ANCHOR is_fat32: no read of sectors_per_fat_16')
+        elif not ok:
+            rep.violation('M2', vkey('M2', IF.name, 'zero-fat-size', ''), IF.loc(IF.span),
+                          'with a 16-bit FAT size of 0 the boot sector can still be treated as FAT12/16 (outcomes %s): the '
+                          'only non-zero test of the FAT size is on the FAT32 field, so such a volume is mounted with '
+                          'sectors_per_fat() == 0' % sorted(outs or []))
+
     # ---------------- M2c FAT width vs cluster count (decision table over is_fat32 x total_clusters)
     VT = facts.fns.get(BPB + '::validate_total_clusters')
     if VT is None:
